@@ -43,7 +43,9 @@ U3 == [hp |-> TRUE, q |-> 2, hdr |-> [Hdr0 EXCEPT !.quorum = 1, !.core = <<2, 1>
 U4 == [hp |-> TRUE, q |-> 1, hdr |-> Hdr0, nc |-> <<1, 2, 3, 4, 5>>, votes |-> <<1>>, sk |-> SisOf({2})]
 U5 == [hp |-> FALSE, q |-> 2, hdr |-> [Hdr0 EXCEPT !.serial = 1, !.grace = 0],
        nc |-> <<1, 2, 3, 4, 5>>, votes |-> <<>>, sk |-> SisOf({1, 2, 3, 4})]
-Bases == <<U1, U2, U3, U4, U5>>
+\* regular update with quorum 1: regular voter 3 re-issued (8) and listed at another position than before
+U6 == [hp |-> TRUE, q |-> 1, hdr |-> [Hdr0 EXCEPT !.quorum = 1], nc |-> <<1, 2, 4, 8, 5>>, votes |-> <<2>>, sk |-> SisOf({3, 8})]
+Bases == <<U1, U2, U3, U4, U5, U6>>
 
 Ids == {<<1, 1, 4>>, <<1, 1, 5>>, <<1, 1, 3>>, <<1, 1, 1>>, <<2, 1, 4>>, <<1, 2, 4>>, <<1, 4, 4>>}
 Devs ==
@@ -58,6 +60,8 @@ Devs ==
     [k : {"vadd"}, a : -1..5, b : {0}] \cup
     [k : {"vdrop"}, a : {0}, b : {0}] \cup
     [k : {"vset"}, a : 1..3, b : 0..5] \cup
+    [k : {"swapnc"}, a : 1..5, b : {0}] \cup            \* certificate order: slots a and a+1 exchanged
+    [k : {"revote"}, a : 1..2, b : 0..4] \cup           \* vote a is cast (and signed) by predecessor certificate b instead
     [k : {"si"}, a : 1..NPool, b : KindIds] \cup
     [k : {"sifinal"}, a : 1..NPool, b : FinalKindIds]
 
@@ -82,6 +86,11 @@ Apply(c, m) ==
       [] m.k = "vadd" -> IF Len(c.votes) < 4 THEN [c EXCEPT !.votes = Append(@, m.a)] ELSE c
       [] m.k = "vdrop" -> IF Len(c.votes) > 0 THEN [c EXCEPT !.votes = SubSeq(@, 1, Len(@) - 1)] ELSE c
       [] m.k = "vset" -> IF m.a <= Len(c.votes) THEN [c EXCEPT !.votes[m.a] = m.b] ELSE c
+      [] m.k = "swapnc" -> IF m.a < Len(c.nc) THEN [c EXCEPT !.nc[m.a] = c.nc[m.a + 1], !.nc[m.a + 1] = c.nc[m.a]] ELSE c
+      [] m.k = "revote" -> IF m.a <= Len(c.votes)
+                             THEN [c EXCEPT !.votes[m.a] = m.b, !.sk[m.b + 1] = "good",
+                                            !.sk[c.votes[m.a] + 1] = IF c.votes[m.a] \in 0..4 /\ c.votes[m.a] # m.b THEN "none" ELSE @]
+                             ELSE c
       [] m.k = "si" -> [c EXCEPT !.sk[m.a] = AllKinds[m.b]]
       [] m.k = "sifinal" -> [c EXCEPT !.sk[m.a] = AllKinds[m.b]]
 
